@@ -1285,6 +1285,16 @@ class Engine:
             return None
         state.clear()
         state.update(out)
+        # facts established on EVERY path through the callee (e.g. the exit condition of a retry loop) are statements about
+        # values and stay true after it has returned
+        rbs = [rb for rb in fr.cfg.return_blocks() if (key, rb) in self.block_facts]
+        if rbs:
+            common = None
+            for rb in rbs:
+                fs = self.block_facts.get((key, rb), frozenset())
+                common = set(fs) if common is None else (common & set(fs))
+            if common:
+                call["post_facts"] = list(call.get("post_facts") or []) + sorted(common, key=lambda f: (f[0].id, str(f[1:])))
         return ret
 
     def invoke_value(self, call, fv, args, ambient=frozenset(), tag=""):
